@@ -303,7 +303,7 @@ type ResultInfo struct {
 	OK       bool   // OK packet (no result set)
 	Err      *MyErr // ERR packet (possibly after some rows)
 	Cols     int
-	Rows     int // rows received before the terminating EOF / the error
+	Rows     int  // rows received before the terminating EOF / the error
 	Complete bool // the terminating EOF of the row section was received
 	Status   uint16
 }
